@@ -8,7 +8,7 @@ OUT=${1:?outdir}; shift
 PROPS=${*:-"C13 C12 C19 C18 C07 C11 C05 C10 C09 C06 C04 C08 C02 C01 C03"}
 cd /verif
 git -C /repo diff --quiet || { echo "/repo has local modifications: refusing"; exit 2; }
-(cd harness && CARGO_NET_OFFLINE=true cargo build --release --offline 2>&1 | tail -1)
+./build.sh harness || { echo "build failed"; exit 2; }
 mkdir -p "$OUT"
 cp target/release/tyv "$OUT/tyv"
 export VERIF_DIR=/verif
